@@ -150,6 +150,14 @@ def main():
             line = open(os.path.join("/repo", e["file"])).read().split("\n")[e["line"]]
             if (e["kind"].startswith("'len('") and "make(" in line) or e["func"].startswith("print"):
                 res[e["id"]] = {"detected_by": None, "equivalent": "capacity hint / print helper", "wall_s": 0}
+                continue
+            # functions nothing outside the tests calls
+            uses = 0
+            for fn in FILES:
+                src = open(os.path.join("/repo", fn)).read()
+                uses += len(re.findall(r"[^\w]" + re.escape(e["func"]) + r"[\(\[]", src))
+            if uses <= 1:
+                res[e["id"]] = {"detected_by": None, "equivalent": "function not called by any non-test code", "wall_s": 0}
         todo = [e for e in surv if e["id"] not in res]
         with cf.ThreadPoolExecutor(a.jobs) as ex:
             for k, r in ex.map(checks_one, todo):
